@@ -457,3 +457,28 @@ package table
 //@   claims at-return
 //@   at-return requires old(info.RouteServerClient) ==> ret0 == original
 //@   at-return requires !old(info.RouteServerClient) ==> ret0 != nil && fresh(ret0)
+
+// =============================================================================================
+// C14 — the 2-octet/4-octet AS transition: reconstruction from AS_PATH + AS4_PATH
+// =============================================================================================
+//@ props C14
+// The path length is the RFC 4271 one the decision process uses (ASLen: SEQUENCE members, 1 per SET, 0 for
+// confederation segments). asLen / as4Len are the function's own running sums of ASLen() over AS_PATH and the
+// accepted AS4_PATH segments; keepNum is the number of leading AS_PATH hops still to be kept.
+//   "never lengthens the path":   hops kept from AS_PATH + hops of AS4_PATH <= hops of AS_PATH   (loop 5 invariant;
+//                                 every kept segment lowers keepNum by exactly the hops it contributes)
+//   "never produces an empty segment": the truncated copy of a segment has at least one member, and is only
+//                                 ever made from an AS_SEQUENCE that is longer than what is kept of it
+//   "ignores an AS4_PATH longer than the AS_PATH": a new AS_PATH is only built when as4Len <= asLen
+// Not claimed here: nil/bounds safety and the 255-member limit of the merged segments (they need a
+// well-formedness invariant over every segment reachable from the message, DESIGN.md 8), and that the merge loop
+// adds exactly the AS4_PATH hops (per-segment fact, telescoped by hand).
+//@ func UpdatePathAttrs4ByteAs
+//@   math-int
+//@   claims inv-init inv-keep step at-call
+//@   loop 3 invariant asLen >= 0 && asConfedLen >= 0
+//@   loop 4 invariant as4Len >= 0
+//@   loop 5 invariant keepNum >= 0 && keepNum + as4Len <= asLen
+//@   loop 5 step keepNum >= 1 && header(keepNum) - keepNum == segASLen(param)
+//@   at-call param.GetAS()[:keepNum] requires keepNum >= 1 && segType(param) == bgp.BGP_ASPATH_ATTR_TYPE_SEQ && keepNum < segLen(param)
+//@   at-call bgp.NewPathAttributeAsPath(newIntfParams) requires as4Len <= asLen
